@@ -12,13 +12,13 @@ use crate::util::{Report, Tier, par_map};
 
 pub fn online_configs(tier: Tier, seed: u64) -> Result<Vec<Config>, String> {
     let mut v = vec![];
-    let mut roles: Vec<(usize, usize, usize)> = vec![(2, 1, 0), (2, 0, 0), (3, 1, 0), (3, 0, 0)];
+    let mut roles: Vec<(usize, usize, usize)> = vec![(2, 1, 0), (2, 0, 0), (2, 0, 1), (2, 1, 1), (3, 1, 0), (3, 0, 0)];
     if tier.is_thorough() {
-        roles.extend([(2, 0, 1), (2, 1, 1), (3, 2, 1), (3, 1, 1)]);
+        roles.extend([(3, 2, 1), (3, 1, 1)]);
     }
     for (n, corrupted, p_eval) in roles {
         let c = super::c08::circuit(n);
-        for mask in if tier.is_thorough() { vec![0b101u64, 0b010, 0b111] } else { vec![0b101u64] } {
+        for mask in if tier.is_thorough() { vec![0b101u64, 0b010, 0b111] } else if n == 2 { vec![0b101u64, 0b010] } else { vec![0b101u64] } {
             let case = MpcCase { inputs: c.inputs_from_mask(mask), circ: c.clone(), p_eval, p_out: (0..n).collect(), tmp_mask: 0 };
             v.push(make_config(case, corrupted, crate::campaign::tape_seed(seed, (n * 100 + corrupted * 10 + p_eval) as u64 + mask), false)?);
         }
